@@ -1333,12 +1333,27 @@ def _call_tensor_method(it, tm, args, kwargs, node, fi):
             return nf.wrap_axis(x, "row")
         if k == 0:
             return x
-        raise it.err(f"unsqueeze({k}) is outside the axis fragment", node, fi)
+        return nf.linear(f"unsqueeze[{k}]", (), Rat.lift(x))
     if name == "transpose":
         dims = sorted(int(a) for a in args)
         if dims == [-2, -1]:
             return nf.transpose(x)
-        raise it.err(f"transpose{tuple(args)} is outside the axis fragment", node, fi)
+        return nf.linear(f"transpose[{dims[0]},{dims[1]}]", (), Rat.lift(x))
+    if name in ("expand", "expand_as", "repeat", "reshape", "view", "flatten", "permute", "narrow", "select",
+                "diagonal", "t", "mean", "cumsum", "flip", "roll", "index_select", "gather", "tril", "triu"):
+        # shape / selection / averaging operations are linear maps: kept opaque but linear, keyed by their arguments
+        key = ",".join(_index_text(a) if not isinstance(a, (Rat,)) else str(a) for a in args)
+        key += "".join(f";{k}={v}" for k, v in sorted(kwargs.items()))
+        return nf.linear(f"{name}[{key}]", (), Rat.lift(x))
+    if name == "pow":
+        return Rat.lift(x) ** nf.frac(args[0])
+    if name == "square":
+        return Rat.lift(x) * Rat.lift(x)
+    if name in ("mul", "add", "sub", "div", "neg"):
+        if name == "neg":
+            return -Rat.lift(x)
+        op = {"mul": ast.Mult(), "add": ast.Add(), "sub": ast.Sub(), "div": ast.Div()}[name]
+        return it.binop(op, x, args[0], node, fi)
     if name in ("squeeze",):
         return x
     if name in ("detach", "clone", "contiguous", "cpu", "requires_grad_", "to", "float", "double"):
